@@ -28,6 +28,7 @@ def main(argv=None):
     if a.replay:
         return do_replay(a.replay)
     prop, tier = a.prop, a.tier
+    C.DEBUG_RUN = bool(a.only or a.to or a.no_replay)
     t0 = time.time()
     gen_all()
     hs = [h for h in K.discover(prop) if tier == "thorough" or h.tier == "quick"]
